@@ -69,9 +69,14 @@ def register_to_index(rname: str) -> int:
     if rname in NAMED_REGISTERS:
         return NAMED_REGISTERS[rname]
     elif rname.startswith("r"):
-        v = int(rname[1:])
-        if 0 <= v < 16:
-            return v
+        try:
+            v = int(rname[1:])
+        except ValueError:
+            # Not a number that Python will convert (e.g., thousands of digits).
+            pass
+        else:
+            if 0 <= v < 16:
+                return v
     raise HERAError("{} is not a valid register".format(original))
 
 
